@@ -240,6 +240,12 @@ def _instantiate(pat, shorts):
     if kind == "alt":
         t = shorts[(k + 1) % len(shorts)]
         return "^(" + re.escape(s) + "|" + re.escape(t) + ")$"
+    if kind == "trail":
+        # white space at the edge of the pattern is significant: "-> 4 " = block 4 followed by another block
+        return "-> " + parts[-1] + " "
+    if kind == "lead":
+        # " 0" = a block id 0 that is not the first block of the path
+        return " " + parts[(k // 3) % len(parts)]
     if kind == "digits":
         return r"^\d+ -> \d+$"
     if kind == "none":
@@ -247,7 +253,7 @@ def _instantiate(pat, shorts):
     return r"\d"
 
 
-filters = st.one_of(st.none(), st.tuples(st.sampled_from(["exact", "prefix", "suffix", "sub", "alt", "digits", "none", "all"]), st.integers(0, 20)))
+filters = st.one_of(st.none(), st.tuples(st.sampled_from(["exact", "prefix", "suffix", "sub", "alt", "digits", "none", "all", "trail", "lead"]), st.integers(0, 20)))
 
 
 @st.composite
